@@ -5,6 +5,8 @@ import HmfVerif.Gen.ExprFlow
 import HmfVerif.Spec.Wdm
 import HmfVerif.Proofs.AnalysisWdm
 import HmfVerif.Spec.Wiring
+import HmfVerif.Gen.Guards
+import HmfVerif.Spec.Guards
 /-!
 # C17 — warm dark matter only suppresses, and reduces to CDM for heavy particles
 -/
@@ -122,5 +124,8 @@ theorem recalibration_monotone_in_mass (g M β : ℝ) (hg : 0 ≤ g) (hM : 0 ≤
 theorem wdm_component_wiring :
     Gen.Flow.wiring.lookup "TransferWDM.wdm" = some Spec.Wiring.wdm ∧
     Gen.Flow.wiring.lookup "MassFunctionWDM.dndm" = some Spec.Wiring.alter := by decide
+
+/-- the WDM module contains no numeric special case beyond the particle-mass validator -/
+theorem guards_wdm : Gen.Guards.wdm = Spec.Guards.wdm := by decide
 
 end Hmf.C17
